@@ -61,7 +61,7 @@ def h_handoff(c, pkg, n, cv_returned):
     F = pkg.functions
     summ = ScriptSummary(pkg, pops=1, pushes=1, writes_cache=(n <= 2))
     summ.c = c
-    summ.rich = n <= 2
+    summ.rich = n <= 3          # scripts also spend call budget and define functions (every hand-off must carry both on)
     scripts = [bytes([i + 1]) * (i + 1) for i in range(n)]
     cache_vals = SDict({'sigfield1': b'm'})
     if cv_returned:
@@ -235,6 +235,12 @@ def r_handoff(inputs, params, obligation):
     cv = {'returned': 1} if params['cv_returned'] else {}
     comp = tapescript.compile_script
     tried = []
+    if obligation in ('call_budget_carried', 'definitions_carried', 'limit_carried'):
+        # a function defined by the first script, the whole call budget spent by a middle script, one more call in the last one:
+        # the budget is cumulative over the list, so the last call must fail
+        scripts = [bytes.fromhex('29000000')] + [comp('true pop0')] * max(0, n - 3) + [bytes.fromhex('2a002a00'), bytes.fromhex('2a0001')]
+        got = tapescript.run_auth_scripts(scripts, dict(cv), {}, {}, 1024, 1024, 2)
+        return {'reproduced': got is True, 'scripts': [s_.hex() for s_ in scripts], 'callstack_limit': 2, 'verdict': got}
     ks = [k for k in range(n - 1) if inputs.get(f'body{k}.returns')] or [0]
     for k in ks:
         if n == 1:
